@@ -167,19 +167,30 @@ def round_trip_rules(repo, chk, combos, variant="A"):
     rfn = repo.func(EIO, "InpFile.read")
     chk.fn(wfn, rfn)
     n = 0
-    for units, version in combos:
-        tag = "%s, INP %s%s" % (units, version, "" if variant == "A" else ", fixture variant " + variant)
+    for k_combo, (units, version) in enumerate(combos):
+        # every second combination does all its writes and reads through ONE InpFile object (io = InpFile(); io.write(..); io.read(..); io.write(..); io.read(..)):
+        # whatever a read or a write leaves on the object must not leak into the next one
+        shared = (k_combo % 2 == 1)
+        tag = "%s, INP %s%s%s" % (units, version, "" if variant == "A" else ", fixture variant " + variant, ", one InpFile object re-used" if shared else "")
         world, files = inp_world(repo)
         I = world.interp
         to_dict = world.function(NIO, "to_dict")
         Inp = world.function(EIO, "InpFile")
+        one = [None]
+
+        def obj():
+            if not shared:
+                return Inp()
+            if one[0] is None:
+                one[0] = Inp()
+            return one[0]
 
         def write(wn, name):
-            w = Inp()
+            w = obj()
             I.call(I.getattr_(w, "write"), [name, wn], dict(units=units, version=version))
 
         def read(name):
-            r = Inp()
+            r = obj()
             return I.call(I.getattr_(r, "read"), [name], {})
         try:
             wn = build_fixture_model(repo, world, variant)
